@@ -4,10 +4,22 @@ The dispatcher's service loop is endless; the contracts run the REAL `run()` for
 the link stub hands out the packets and then raises the pseudo exception StopLoop (a BaseException, so the
 `except Exception` around callbacks cannot swallow it).
 
-Thread interleavings are covered only as explicit schedules (`dispatch.request-registered-during-answer-scan`: another thread's
-send_packet runs while the dispatcher scans the answer patterns); registrations performed from OTHER threads at arbitrary
-points of the dispatch are not covered.
-Assumed: callbacks raise only Exception subclasses; packet_received callbacks (outside the try) do not raise.
+Callback kinds: stubs (callable objects without __name__, like functools.partial) and bound methods of real objects (a fresh,
+equal-but-not-identical method object per attribute access, as in CPython) - `remove.bound-method`, `caller.bound-methods`,
+`dispatch.raising-callable-kinds`.  Exceptions: a list of Exception subclasses (EXCEPTIONS).
+
+Thread interleavings are covered only as explicit schedules, i.e. another thread runs while the dispatcher thread is inside a
+call that leaves the interpreted code: `dispatch.request-registered-during-answer-scan` (another thread's send_packet while the
+dispatcher scans the answer patterns), `dispatch.other-thread-changes-registrations` (add / remove while the dispatcher waits in
+receive_packet, runs the all-packet callbacks or logs a raising callback), `dispatch.idle-polls-and-link-change` (link closed and
+re-opened while the dispatcher waits / sleeps).
+NOT covered: pre-emption of the dispatcher between two statements without a call in between - in particular another thread's
+remove_port_callback while the dispatcher evaluates the list comprehension that selects the matching callbacks (CPython list
+iteration can then skip the registration that follows the removed one), and two threads inside remove_header_callback.
+Bounded: at most three registrations and three packets per contract (the registration list and the packet stream have no
+representation of symbolic length in the engine); duplicate (equal) registrations are outside the property's quantifier.
+Assumed: callbacks raise only Exception subclasses; packet_received callbacks (outside the try) do not raise;
+Thread.is_alive() is True after start() (`lifecycle.*`).
 """
 from pyvc.api import contract
 
@@ -69,7 +81,9 @@ def dispatch_port(c):
     c.ensure('at-most-once', "len(sent('cb')) <= 1")
 
 
-ACTIONS = ['none', 'remove_self', 'remove_next', 'remove_prev', 'add_new', 'raise']
+ACTIONS = ['none', 'remove_self', 'remove_next', 'remove_prev', 'add_new', 'raise',
+           # sequences of operations inside one callback (extension round)
+           'remove_self_then_raise', 'add_new_then_raise', 'reregister_self', 'remove_both_others']
 
 
 def _snapshot(n_packets):
@@ -78,7 +92,7 @@ def _snapshot(n_packets):
               clause='every callback registered when dispatch of a packet starts is invoked exactly once, in registration order, '
                      'even when callbacks unregister themselves / others, register new ones or raise while that packet is dispatched; '
                      'later packets go to the then-current registrations',
-              bounded='three registrations on one port, one action per callback out of %s (all 216 combinations)' % ACTIONS)
+              bounded='three registrations on one port, one action (a sequence of up to two operations) per callback out of %s (all %d combinations)' % (ACTIONS, len(ACTIONS) ** 3))
     def k(c):
         port = 9
         pks = [c.new(STK + ':CRTPPacket', (port << 4) | 1, c.bytes('d%d' % i, 1)) for i in range(n_packets)]
@@ -94,15 +108,21 @@ def _snapshot(n_packets):
                     return None
                 fired.add(i)
                 a = acts[i]
-                if a == 'remove_self':
+                if a in ('remove_self', 'remove_self_then_raise', 'reregister_self'):
                     c.invoke((h, 'remove_port_callback'), port, cbs[i])
+                    if a == 'reregister_self':      # the same registration again: it is the youngest one now
+                        c.invoke((h, 'add_port_callback'), port, cbs[i])
                 elif a == 'remove_next' and i + 1 < 3:
                     c.invoke((h, 'remove_port_callback'), port, cbs[i + 1])
                 elif a == 'remove_prev' and i > 0:
                     c.invoke((h, 'remove_port_callback'), port, cbs[i - 1])
-                elif a == 'add_new':
+                elif a == 'remove_both_others':
+                    for o in range(3):
+                        if o != i:
+                            c.invoke((h, 'remove_port_callback'), port, cbs[o])
+                elif a in ('add_new', 'add_new_then_raise'):
                     c.invoke((h, 'add_port_callback'), port, new_cb)
-                elif a == 'raise':
+                if a in ('raise', 'remove_self_then_raise', 'add_new_then_raise'):
                     c.raiser('ValueError', 'callback failed')()
                 return None
             return effect
@@ -125,13 +145,20 @@ def _snapshot(n_packets):
                     continue
                 done.add(r)
                 a = acts[r]
-                if a == 'remove_self' and r in regs:
-                    regs.remove(r)
+                if a in ('remove_self', 'remove_self_then_raise', 'reregister_self'):
+                    if r in regs:
+                        regs.remove(r)
+                    if a == 'reregister_self':
+                        regs.append(r)
                 elif a == 'remove_next' and r + 1 < 3 and (r + 1) in regs:
                     regs.remove(r + 1)
                 elif a == 'remove_prev' and r > 0 and (r - 1) in regs:
                     regs.remove(r - 1)
-                elif a == 'add_new':
+                elif a == 'remove_both_others':
+                    for o in range(3):
+                        if o != r and o in regs:
+                            regs.remove(o)
+                elif a in ('add_new', 'add_new_then_raise'):
                     regs.append('new')
         c.let('expected', tuple(expected))
         c.ensure('snapshot-delivery-order', "tuple(n for n in calls() if n.startswith('cb')) == expected")
@@ -288,3 +315,431 @@ def request_during_scan(c):
     c.ensure('second-packet-delivered-to-its-port-callback', "len([x for x in sent('cb') if is_same(x[1][0], rx2)]) == 1")
     c.ensure('first-packet-delivered-iff-port-matches', "iff(len([x for x in sent('cb') if is_same(x[1][0], rx1)]) == 1, rh >> 4 == h0 >> 4)")
     c.ensure('schedule-really-ran-the-other-thread', "len(sent('link.send_packet')) == 1 and len(sent('Timer')) == 1")
+
+
+# ------------------------------------------------------------------------- extension round: callable kinds, histories, schedules
+
+@contract('C07', 'remove.bound-method', [CF + ':_IncomingPacketHandler.remove_header_callback', CF + ':_IncomingPacketHandler.remove_port_callback',
+                                         CF + ':_IncomingPacketHandler.add_port_callback'] + RUN,
+          clause='removing a registration stops deliveries for that registration only, whatever kind of callable the callback is: a registration '
+                 'whose callback is a bound method is removed by passing the same method of the same object again (an equal, not identical, '
+                 'bound-method object - what cflib.crazyflie.toc does), the same method of ANOTHER object and a plain callable stay registered, '
+                 'and the next packet reaches exactly the remaining ones',
+          bounded='three registrations on one port: two bound methods (same function, two objects) and one callable object; one packet afterwards')
+def remove_bound_method(c):
+    port = c.int('port', 0, 15)
+    c.int('chan', 0, 3)
+    c.snapshot('hdr', '(port << 4) | chan')
+    pk = c.new(STK + ':CRTPPacket', c.get('hdr'), c.bytes('data', 1))
+    h, cf = handler_with_packets(c, [pk])
+    # real objects with a real one-argument method: Caller.call(pk) hands pk to the stubs registered in that Caller
+    objs = [c.new(CB + ':Caller'), c.new(CB + ':Caller')]
+    sinks = [c.ext('cbA'), c.ext('cbB')]
+    for o, s in zip(objs, sinks):
+        c.invoke((o, 'add_callback'), s)
+    plain = c.ext('cbC')
+    via = c.choice('registered_with', ['port', 'header'])
+    order = c.choice('order', [(0, 1, 2), (1, 0, 2), (2, 0, 1), (0, 2, 1)])
+
+    def reg(i, add):
+        cb = plain if i == 2 else c.getfield(objs[i], 'call')      # a FRESH bound-method object at every use
+        if via == 'port':
+            c.call((h, 'add_port_callback' if add else 'remove_port_callback'), port, cb)
+        else:
+            c.call((h, ('add' if add else 'remove') + '_header_callback'), cb, port, 0, 0xFF, 0)
+    for i in order:
+        reg(i, True)
+    c.let('h', h)
+    c.snapshot('before', 'tuple(h.cb)')
+    victim = c.choice('victim', [0, 1, 2])
+    reg(victim, False)
+    c.ensure('no-exception', 'raised is None')
+    c.let('rest', tuple(k for k in range(3) if order[k] != victim))
+    c.ensure('exactly-that-registration-removed', 'len(h.cb) == 2 and all(is_same(h.cb[k], before[rest[k]]) for k in range(2))')
+    c.reset_trace()
+    c.call((h, 'run'))
+    c.ensure('loop-survives', "raised == 'StopLoop'")
+    c.let('expected', tuple('cb' + 'ABC'[i] for i in order if i != victim))
+    c.ensure('next-packet-reaches-exactly-the-remaining-registrations', "tuple(n for n in calls() if n.startswith('cb')) == expected")
+
+
+@contract('C07', 'caller.bound-methods', [CB + ':Caller.add_callback', CB + ':Caller.remove_callback', CB + ':Caller.call'],
+          clause='all-packet callbacks (Caller): a callback that is a bound method is registered once however often it is added, and is removed by '
+                 'passing the same method of the same object again (an equal, not identical, bound-method object - what Crazyflie does with '
+                 '_check_for_initial_packet_cb); the same method of another object and plain callables keep receiving, each exactly once in order',
+          bounded='two bound methods (same function, two objects) and one callable object')
+def caller_bound_methods(c):
+    caller = c.new(CB + ':Caller')
+    objs = [c.new(CB + ':Caller'), c.new(CB + ':Caller')]
+    sinks = [c.ext('cbA'), c.ext('cbB')]
+    for o, s in zip(objs, sinks):
+        c.invoke((o, 'add_callback'), s)
+    plain = c.ext('cbC')
+
+    def cb(i):
+        return plain if i == 2 else c.getfield(objs[i], 'call')    # a FRESH bound-method object at every use
+    order = c.choice('order', [(0, 1, 2), (1, 0, 2), (2, 0, 1), (0, 2, 1)])
+    for i in order:
+        c.invoke((caller, 'add_callback'), cb(i))
+    again = c.choice('added_again', [0, 1, 2])
+    c.call((caller, 'add_callback'), cb(again))
+    c.let('caller', caller)
+    c.ensure('no-duplicates', 'raised is None and len(caller.callbacks) == 3')
+    c.reset_trace()
+    c.int('x')
+    c.call((caller, 'call'), c.get('x'))
+    c.let('all3', tuple('cb' + 'ABC'[i] for i in order))
+    c.ensure('each-once-in-order', "raised is None and calls('cb') == all3 and all(e[1] == (x,) for e in trace)")
+    victim = c.choice('victim', [0, 1, 2])
+    c.call((caller, 'remove_callback'), cb(victim))
+    c.ensure('removed', 'raised is None and len(caller.callbacks) == 2')
+    c.reset_trace()
+    c.call((caller, 'call'), c.get('x'))
+    c.let('expected', tuple('cb' + 'ABC'[i] for i in order if i != victim))
+    c.ensure('only-that-one-stops-receiving', "raised is None and calls('cb') == expected")
+
+
+EXCEPTIONS = ['ValueError', 'KeyError', 'IndexError', 'AttributeError', 'TypeError', 'struct.error', 'ZeroDivisionError', 'AssertionError',
+              'RuntimeError', 'NotImplementedError', 'OSError', 'TimeoutError', 'queue.Empty', 'UnicodeDecodeError', 'StopIteration', 'Exception']
+
+
+@contract('C07', 'dispatch.raising-callable-kinds', RUN,
+          clause='an exception raised by one port callback neither prevents delivery to the remaining callbacks nor stops processing of later '
+                 'packets - whatever Exception subclass it is, whatever kind of callable the raising callback is (a callable object / '
+                 'functools.partial-like callable without __name__, or a bound method of a real object, the kind the library itself registers) and '
+                 'at every position of the raising callback',
+          bounded='three registrations on one port, one of them raises on every delivery; two packets; exception classes: %s' % EXCEPTIONS)
+def raising_kinds(c):
+    port = c.int('port', 0, 15)
+    c.ints('chan', 2, 0, 3)
+    pks = []
+    for i in range(2):
+        c.snapshot('h%d' % i, '(port << 4) | chan[%d]' % i)
+        pks.append(c.new(STK + ':CRTPPacket', c.get('h%d' % i), c.bytes('d%d' % i, 1)))
+    h, cf = handler_with_packets(c, pks)
+    exc = c.choice('exception', EXCEPTIONS)
+    kind = c.choice('kind', ['callable-object', 'bound-method'])
+    pos = c.choice('position', [0, 1, 2])
+    args = ('utf-8', b'\xff', 0, 1, 'invalid start byte') if exc == 'UnicodeDecodeError' else ('callback failed',)
+    boom = c.ext('boom', returns={'()': c.raiser(exc, *args)})
+    if kind == 'bound-method':
+        holder = c.new(CB + ':Caller')               # holder.call(pk) calls boom(pk), which raises out of the bound method
+        c.invoke((holder, 'add_callback'), boom)
+        raising = c.getfield(holder, 'call')
+    else:
+        raising = boom
+    others = [c.ext('cb0'), c.ext('cb1')]
+    regs = list(others)
+    regs.insert(pos, raising)
+    for r in regs:
+        c.invoke((h, 'add_port_callback'), port, r)
+    c.reset_trace()
+    for i in range(2):
+        c.let('pk%d' % i, pks[i])
+    c.call((h, 'run'))
+    c.ensure('loop-survives-and-takes-both-packets', "raised == 'StopLoop' and len(sent('link.receive_packet')) == 3")
+    names = ['cb0', 'cb1']
+    names.insert(pos, 'boom')
+    c.let('expected', tuple((n, i) for i in range(2) for n in names))
+    c.ensure('every-callback-gets-every-packet-once-in-order',
+             "tuple((e[0], 0 if is_same(e[1][0], pk0) else 1) for e in trace if e[0] in ('cb0', 'cb1', 'boom')) == expected")
+
+
+def _several(n_regs, thorough_only):
+    names = tuple('cb%d' % j for j in range(n_regs))
+
+    @contract('C07', 'dispatch.%d-registrations-2-packets' % n_regs, RUN + [CF + ':_IncomingPacketHandler.add_header_callback'],
+              clause='every received packet is passed exactly once to EACH registered callback whose pattern matches its header and to no other, in '
+                     'arrival order of the packets (and registration order within one packet): for all header bytes of both packets and all '
+                     'port / mask / channel / mask values of every registration, also when one of the callbacks raises',
+              bounded='%d registrations with different callbacks, two packets; at most one raising callback' % n_regs,
+              thorough_only=thorough_only)
+    def several(c):
+        pks = [c.new(STK + ':CRTPPacket', c.int('hd%d' % i, 0, 255), c.bytes('d%d' % i, 1)) for i in range(2)]
+        h, cf = handler_with_packets(c, pks)
+        raising = c.choice('raising', [None] + list(range(n_regs)))
+        boom = c.raiser('RuntimeError', 'callback failed')
+        for j in range(n_regs):
+            f = [c.int('%s%d' % (n, j), 0, 255) for n in ('p', 'pm', 'c', 'cm')]
+            cb = c.ext('cb%d' % j, returns={'()': boom} if raising == j else {})
+            c.invoke((h, 'add_header_callback'), cb, f[0], f[2], f[1], f[3])
+        c.reset_trace()
+        for i in range(2):
+            c.let('pk%d' % i, pks[i])
+        c.let('names', names)
+        c.call((h, 'run'))
+        c.ensure('loop-survives-and-takes-both-packets', "raised == 'StopLoop' and len(sent('link.receive_packet')) == 3")
+        c.snapshot('deliveries', "tuple((0 if is_same(e[1][0], pk0) else 1, int(e[0][2])) for e in trace if e[0] in names)")
+        c.ensure('only-the-received-packets-are-delivered', "all(is_same(e[1][0], pk0) or is_same(e[1][0], pk1) for e in trace if e[0] in names)")
+        for i in range(2):
+            for j in range(n_regs):
+                c.ensure('pk%d-cb%d-once-iff-match' % (i, j),
+                         "deliveries.count((%d, %d)) == (1 if p%d == ((hd%d >> 4) & pm%d) and c%d == ((hd%d & 3) & cm%d) else 0)" % (i, j, j, i, j, j, i, j))
+        c.ensure('arrival-order-then-registration-order', 'deliveries == tuple(sorted(deliveries))')
+    return several
+
+
+_several(2, False)
+_several(3, True)
+
+
+@contract('C07', 'dispatch.idle-polls-and-link-change', RUN,
+          clause='every packet received from the link is passed exactly once, in arrival order, to the matching callback and later packets are '
+                 'still processed - also when the link has nothing to deliver for a while (receive_packet times out and returns None) and when '
+                 'the link is closed (cf.link is None) and another one is opened later: the registrations stay and the packets of the new link '
+                 'reach them',
+          bounded='explicit schedule: [packet, time-out, packet] on the first link; the link is closed while the dispatcher waits in '
+                  'receive_packet; it is re-opened during the second wait of the dispatcher; [time-out, packet] on the second link')
+def idle_and_link_change(c):
+    port = c.int('port', 0, 15)
+    c.ints('chan', 3, 0, 3)
+    pks = []
+    for i in range(3):
+        c.snapshot('h%d' % i, '(port << 4) | chan[%d]' % i)
+        pks.append(c.new(STK + ':CRTPPacket', c.get('h%d' % i), c.bytes('d%d' % i, 1)))
+        c.let('pk%d' % i, pks[i])
+    stop = c.raiser('StopLoop')
+    script1 = [pks[0], None, pks[1], 'close']
+    script2 = [None, pks[2]]
+    state = {'sleeps': 0}
+
+    def rx1(*_a):
+        if not script1:
+            return stop()                  # (a dispatcher that keeps polling the closed link: end the run, the ensures fail)
+        x = script1.pop(0)
+        if x == 'close':
+            c.set(cf, 'link', None)        # the application thread closes the link (close_link / link error) while the dispatcher waits
+            return None
+        return x
+
+    def rx2(*_a):
+        if script2:
+            return script2.pop(0)
+        return stop()
+
+    def sleep(*_a):
+        state['sleeps'] += 1
+        if state['sleeps'] == 2:
+            c.set(cf, 'link', link2)       # the application thread opens the next link
+        if state['sleeps'] > 8:
+            return stop()                  # (a dispatcher that never looks at the link again: end the run, the ensures fail)
+        return None
+    link = c.ext('link', returns={'receive_packet': rx1})
+    link2 = c.ext('link2', returns={'receive_packet': rx2})
+    cf = c.ext('cf', attrs={'link': link})
+    c.patch(CF + ':time', c.ext('time', returns={'sleep': sleep}))
+    h = c.new(CF + ':_IncomingPacketHandler', cf)
+    cb = c.ext('cb')
+    c.invoke((h, 'add_port_callback'), port, cb)
+    c.reset_trace()
+    c.call((h, 'run'))
+    c.ensure('loop-survives', "raised == 'StopLoop'")
+    c.ensure('every-packet-once-in-arrival-order',
+             "len(sent('cb')) == 3 and all(is_same(sent('cb')[i][1][0], (pk0, pk1, pk2)[i]) for i in range(3))")
+    c.ensure('all-packet-callbacks-get-them-too',
+             "len(sent('cf.packet_received.call')) == 3 and all(is_same(sent('cf.packet_received.call')[i][1][0], (pk0, pk1, pk2)[i]) for i in range(3))")
+
+
+WHEN = ['waiting-for-next-packet', 'all-packet-callbacks-running', 'error-being-logged']
+OPS = ['remove_first', 'remove_last', 'add_new']
+
+
+@contract('C07', 'dispatch.other-thread-changes-registrations', RUN + [CF + ':_IncomingPacketHandler.remove_port_callback',
+                                                                      CF + ':_IncomingPacketHandler.add_port_callback'],
+          clause='registrations added / removed by ANOTHER thread while the dispatcher thread is busy with a packet or waits for the next one: the '
+                 'callbacks whose registration is not touched still get every packet exactly once in registration order, the touched one gets '
+                 'the packet under dispatch at most once, the dispatcher survives, and the next packet goes to exactly the then-current '
+                 'registrations (removal stops deliveries for that registration only)',
+          bounded='explicit schedules (no pre-emption between two statements of the dispatcher): the other thread runs while the dispatcher is '
+                  'inside receive_packet, inside the all-packet callbacks, or inside the logging call that reports a raising callback; three '
+                  'registrations on one port, one operation out of %s, two packets' % OPS)
+def other_thread(c):
+    port = c.int('port', 0, 15)
+    c.ints('chan', 2, 0, 3)
+    pks = []
+    for i in range(2):
+        c.snapshot('h%d' % i, '(port << 4) | chan[%d]' % i)
+        pks.append(c.new(STK + ':CRTPPacket', c.get('h%d' % i), c.bytes('d%d' % i, 1)))
+        c.let('pk%d' % i, pks[i])
+    when = c.choice('when', WHEN)
+    op = c.choice('op', OPS)
+    done = []
+    cbs = []
+    new_cb = c.ext('cbnew')
+
+    def other_thread_runs():
+        if done:
+            return
+        done.append(op)
+        if op == 'remove_first':
+            c.invoke((h, 'remove_port_callback'), port, cbs[0])
+        elif op == 'remove_last':
+            c.invoke((h, 'remove_port_callback'), port, cbs[2])
+        else:
+            c.invoke((h, 'add_port_callback'), port, new_cb)
+    queue = list(pks)
+    stop = c.raiser('StopLoop')
+
+    def rx(*_a):
+        if not queue:
+            return stop()
+        if len(queue) == 1 and when == WHEN[0]:
+            other_thread_runs()
+        return queue.pop(0)
+
+    def all_packet(*_a):
+        if when == WHEN[1]:
+            other_thread_runs()
+        return None
+
+    def log_error(*_a):
+        if when == WHEN[2]:
+            other_thread_runs()
+        return None
+    link = c.ext('link', returns={'receive_packet': rx})
+    cf = c.ext('cf', attrs={'link': link}, returns={'packet_received.call': all_packet})
+    c.patch(CF + ':logger', c.ext('logger', returns={'error': log_error, 'exception': log_error, 'warning': log_error}))
+    h = c.new(CF + ':_IncomingPacketHandler', cf)
+    boom = c.raiser('ValueError', 'callback failed')
+    for i in range(3):
+        cbs.append(c.ext('cb%d' % i, returns={'()': boom} if (i == 1 and when == WHEN[2]) else {}))
+        c.invoke((h, 'add_port_callback'), port, cbs[i])
+    c.reset_trace()
+    c.call((h, 'run'))
+    c.ensure('dispatcher-survives-both-packets', "raised == 'StopLoop' and len(sent('link.receive_packet')) == 3")
+    touched = {'remove_first': 'cb0', 'remove_last': 'cb2', 'add_new': 'cbnew'}[op]
+    c.let('touched', touched)
+    c.snapshot('first', "tuple(e[0] for e in trace if e[0].startswith('cb') and is_same(e[1][0], pk0))")
+    c.snapshot('second', "tuple(e[0] for e in trace if e[0].startswith('cb') and is_same(e[1][0], pk1))")
+    c.ensure('arrival-order', "tuple(e[0] for e in trace if e[0].startswith('cb')) == first + second")
+    c.let('untouched', tuple(n for n in ('cb0', 'cb1', 'cb2') if n != touched))
+    c.ensure('packet-under-dispatch.untouched-registrations-exactly-once-in-order', 'tuple(n for n in first if n != touched) == untouched')
+    c.ensure('packet-under-dispatch.touched-registration-at-most-once', 'first.count(touched) <= 1')
+    if when == WHEN[0]:
+        c.ensure('operation-between-two-packets-does-not-change-the-finished-dispatch', "first == ('cb0', 'cb1', 'cb2')")
+    after = ['cb0', 'cb1', 'cb2']
+    if done:            # (a refactoring may drop the logging call the third schedule hooks into: then nothing was changed)
+        if op == 'add_new':
+            after.append('cbnew')
+        else:
+            after.remove(touched)
+    c.let('after', tuple(after))
+    c.ensure('next-packet-goes-to-exactly-the-current-registrations', 'second == after')
+
+
+@contract('C07', 'lifecycle.dispatcher-runs-for-every-session', [CF + ':Crazyflie.open_link', CF + ':Crazyflie.close_link', CF + ':Crazyflie._link_error_cb'],
+          clause='every packet received from the link is dispatched: opening a link makes sure that the dispatcher thread of this Crazyflie - the '
+                 'handler object that holds the registrations - runs: it is started with the first session, and exactly once (starting a thread '
+                 'twice is an error that would make the second session fail), whatever number of sessions follow; a registration that was '
+                 'never removed is still registered in the next session',
+          bounded='two sessions (open, close_link or link error, open) on a stub link driver.  Assumed: Thread.is_alive() is True once start() was called (the '
+                  'dispatcher loop never returns); start / is_alive of the handler are stubs of the contract with exactly that behaviour')
+def dispatcher_runs(c):
+    c.use_stubs(CF, ['Timer'])
+    cf = c.new(CF + ':Crazyflie')
+    c.let('cf', cf)
+    started = []
+    handler = c.getfield(cf, 'incoming')
+    c.set(handler, 'start', c.ext('dispatcher.start', returns={'()': lambda *_a: started.append(1)}))
+    c.set(handler, 'is_alive', c.ext('dispatcher.is_alive', returns={'()': lambda *_a: bool(started)}))
+    c.let('handler', handler)
+    links = [c.ext('link1', attrs={'needs_resending': False}), c.ext('link2', attrs={'needs_resending': False})]
+    handed = []
+
+    def driver(*_a):
+        handed.append(1)
+        return links[len(handed) - 1]
+    c.patch('cflib.crtp:get_link_driver', c.ext('get_link_driver', returns={'()': driver}))
+    failed = c.ext('connection_failed')
+    c.invoke((c.getfield(cf, 'connection_failed'), 'add_callback'), failed)
+    user_cb = c.ext('user_cb')
+    c.int('uport', 0, 15)
+    c.invoke((cf, 'add_port_callback'), c.get('uport'), user_cb)
+    c.reset_trace()
+    c.call((cf, 'open_link'), 'radio://0/80/2M')
+    c.ensure('first-session.dispatcher-started-exactly-once',
+             "raised is None and len(sent('dispatcher.start')) == 1 and is_same(cf.incoming, handler) and len(sent('connection_failed')) == 0")
+    how = c.choice('first_session_ends_by', ['close_link', 'link error'])
+    if how == 'close_link':
+        c.call((cf, 'close_link'))
+    else:
+        c.call((cf, '_link_error_cb'), 'link lost')
+    c.snapshot('failed_before', "len(sent('connection_failed'))")      # (a link error before the first packet reports a failed connection)
+    c.call((cf, 'open_link'), 'radio://0/80/2M')
+    c.ensure('second-session.same-handler-not-started-again',
+             "raised is None and len(sent('dispatcher.start')) == 1 and is_same(cf.incoming, handler) and len(sent('connection_failed')) == failed_before")
+    c.ensure('second-session.a-registration-that-was-never-removed-is-still-registered',
+             'len([r for r in cf.incoming.cb if is_same(r.callback, user_cb) and r.port == uport]) == 1')
+
+
+@contract('C07', 'lifecycle.dispatcher-started-with-a-given-link', [CF + ':Crazyflie.__init__'],
+          clause='every packet received from the link is dispatched: a Crazyflie that is handed an open link at construction starts its dispatcher '
+                 'thread (the handler that holds the registrations made through this Crazyflie) at once, exactly once',
+          bounded='the thread itself is the sequential model: the start is recorded, the loop is the subject of the dispatch.* contracts')
+def started_with_link(c):
+    c.virtual_time()
+    link = c.ext('link', attrs={'needs_resending': False})
+    c.call(CF + ':Crazyflie', link)
+    c.let('cf', c.get('result'))
+    c.ensure('constructed', 'raised is None')
+    c.ensure('dispatcher-started-exactly-once',
+             "len(sent('thread:_IncomingPacketHandler.start')) == 1 and is_same(sent('thread:_IncomingPacketHandler.start')[0][1][0], cf.incoming)")
+    cb = c.ext('cb')
+    c.int('port', 0, 15)
+    c.call((c.get('cf'), 'add_port_callback'), c.get('port'), cb)
+    c.ensure('registrations-go-to-the-started-handler', 'raised is None and is_same(cf.incoming.cb[-1].callback, cb) and is_same(cf.incoming.cf, cf)')
+
+
+@contract('C07', 'dispatch.match.packet-built-with-setters', RUN + [STK + ':CRTPPacket._set_port', STK + ':CRTPPacket._set_channel',
+                                                                  STK + ':CRTPPacket._update_header'],
+          clause='a packet is passed to a registered callback iff port == packet_port & port_mask and channel == packet_channel & channel_mask, '
+                 'exactly once - also for packets a link driver builds with the port / channel setters or set_header (cflinkcpp, udp) instead '
+                 'of from the header byte; the header byte of such a packet carries the same port and channel')
+def match_setters(c):
+    c.int('pp', 0, 15), c.int('pc', 0, 3)
+    c.int('port', 0, 255), c.int('pm', 0, 255), c.int('ch', 0, 255), c.int('cm', 0, 255)
+    pk = c.new(STK + ':CRTPPacket')
+    how = c.choice('built_with', ['setters', 'set_header'])
+    if how == 'setters':
+        c.set(pk, 'port', c.get('pp'))
+        c.set(pk, 'channel', c.get('pc'))
+    else:
+        c.invoke((pk, 'set_header'), c.get('pp'), c.get('pc'))
+    c.set(pk, 'data', c.bytes('data', 2))
+    h, cf = handler_with_packets(c, [pk])
+    cb = c.ext('cb')
+    c.invoke((h, 'add_header_callback'), cb, c.get('port'), c.get('ch'), c.get('pm'), c.get('cm'))
+    c.reset_trace()
+    c.let('pk', pk)
+    c.call((h, 'run'))
+    c.ensure('loop-survives', "raised == 'StopLoop'")
+    c.ensure('called-iff-match', "iff(len(sent('cb')) == 1, port == (pp & pm) and ch == (pc & cm))")
+    c.ensure('at-most-once-same-packet', "len(sent('cb')) <= 1 and all(is_same(e[1][0], pk) for e in sent('cb'))")
+    c.ensure('header-byte-agrees', 'pk.header >> 4 == pp and pk.header & 3 == pc and pk.get_header() == pk.header')
+
+
+@contract('C07', 'dispatch.handlers-are-independent', RUN + [CF + ':_IncomingPacketHandler.__init__', CB + ':Caller.__init__'],
+          clause='a packet is passed to the callbacks registered with THIS Crazyflie\'s dispatcher and to no other: registrations (port callbacks '
+                 'and all-packet callbacks) made on one Crazyflie / Caller object are not registrations of another object of the same class',
+          bounded='two handlers, two Callers, one registration each; one packet')
+def independent(c):
+    port = c.int('port', 0, 15)
+    c.int('chan', 0, 3)
+    c.snapshot('hdr', '(port << 4) | chan')
+    pk = c.new(STK + ':CRTPPacket', c.get('hdr'), c.bytes('data', 1))
+    c.let('pk', pk)
+    h1, cf1 = handler_with_packets(c, [pk])
+    cf2 = c.ext('cf2')
+    h2 = c.new(CF + ':_IncomingPacketHandler', cf2)
+    mine, other = c.ext('cb_mine'), c.ext('cb_other')
+    c.invoke((h2, 'add_port_callback'), port, other)
+    c.invoke((h1, 'add_port_callback'), port, mine)
+    c.reset_trace()
+    c.call((h1, 'run'))
+    c.ensure('only-the-callback-of-this-dispatcher', "raised == 'StopLoop' and calls('cb_') == ('cb_mine',)")
+    callers = [c.new(CB + ':Caller'), c.new(CB + ':Caller')]
+    c.invoke((callers[1], 'add_callback'), other)
+    c.invoke((callers[0], 'add_callback'), mine)
+    c.reset_trace()
+    c.call((callers[0], 'call'), pk)
+    c.ensure('only-the-all-packet-callback-of-this-caller', "raised is None and calls('cb_') == ('cb_mine',)")
